@@ -17,8 +17,14 @@ def main():
     tier = "quick"
     if "--tier" in args:
         i = args.index("--tier"); tier = args[i + 1]; del args[i:i + 2]
+    scratch = "--scratch" in args
     names = [a for a in args if not a.startswith("--")] or sorted(d for d in os.listdir(SEEDED) if os.path.isdir(os.path.join(SEEDED, d)))
-    if sh("git -C /repo status --porcelain --untracked-files=no").stdout.strip():
+    SCR = "/scratch/seedrun"
+    if scratch:
+        # run against a scratch copy of /repo (cargo paths override) so that /repo itself is not touched
+        os.makedirs("/scratch", exist_ok=True)
+        sh("rsync -a --delete --exclude target --exclude .git /repo/ %s/" % SCR)
+    elif sh("git -C /repo status --porcelain --untracked-files=no").stdout.strip():
         print("refusing: /repo has uncommitted changes"); return 2
     res_path = os.path.join(SEEDED, "RESULTS.json")
     results = json.load(open(res_path)) if os.path.exists(res_path) else {}
@@ -27,21 +33,27 @@ def main():
         meta = json.load(open(os.path.join(d, "meta.json")))
         pid = meta["property"]
         checks = meta.get("also_check", []) and [pid] + meta["also_check"] or [pid]
-        ap = sh("git -C /repo apply %s" % os.path.join(d, "patch.diff"))
+        if scratch:
+            ap = sh("patch -p1 -s -d %s < %s" % (SCR, os.path.join(d, "patch.diff")))
+        else:
+            ap = sh("git -C /repo apply %s" % os.path.join(d, "patch.diff"))
         if ap.returncode != 0:
             print(name, "PATCH DOES NOT APPLY", ap.stdout[-400:]); results[name] = {"property": pid, "applies": False}; continue
         try:
             entry = {"property": pid, "applies": True, "tier": tier, "runs": {}}
             for c in checks:
                 t0 = time.time()
-                r = sh("cd %s && ./check %s %s" % (ROOT, c, tier))
+                r = sh("cd %s && %s./check %s %s" % (ROOT, ("VERIF_REPO=%s " % SCR) if scratch else "", c, tier))
                 sigs = [l.strip()[len("violation sig="):].split(" :: ")[0] for l in r.stdout.splitlines() if l.strip().startswith("violation sig=")]
                 entry["runs"][c] = {"exit": r.returncode, "signatures": sigs[:8], "wall_s": round(time.time() - t0, 1)}
                 print("%-22s %s %s exit=%d %s" % (name, c, tier, r.returncode, sigs[:3]))
             entry["caught"] = any(v["exit"] == 1 for v in entry["runs"].values())
             results[name] = entry
         finally:
-            sh("git -C /repo checkout -- .")
+            if scratch:
+                sh("patch -R -p1 -s -d %s < %s" % (SCR, os.path.join(d, "patch.diff")))
+            else:
+                sh("git -C /repo checkout -- .")
             sh("rm -rf %s/replays/*" % ROOT)
         json.dump(results, open(res_path, "w"), indent=1, sort_keys=True)
     missed = [n for n in names if results.get(n, {}).get("applies") and not results[n].get("caught")]
